@@ -296,7 +296,12 @@ def run_step(name, c, other, cs, z_new, z_old, k, t, num, out, klass0, idx):
         sh = lib.Curve([u + length for u in other.knotvector], other.ctrlpoints, other.weights) \
             if other.knotvector.limits == c.knotvector.limits else None
         if sh is not None:
+            snap_sh = lib.snapshot(sh)
             structural_result(c | sh, out, klass0, name, idx)
+            # the temporary right operand is an operand too (its degree may be lower or higher than the left one's)
+            if lib.snapshot(sh) != snap_sh:
+                out.fail("operand-modified", klass0 + ";or_join",
+                         f"step {idx}: A | B changed its right operand: degree {sh.degree}, knot vector {list(sh.knotvector)}")
     elif name == "projection":
         from compmec.nurbs.advanced import Projection
         if not lib.is_scalar_point(c.ctrlpoints[0]) and not lib.is_exact(num) and c.degree >= 1:
